@@ -94,6 +94,8 @@ func New(cfg Config, h drpc.Handler) *Rig {
 // sides. It does not judge anything.
 func (r *Rig) Teardown() {
 	r.Dir.ReleaseAll()
+	r.Pair.A.ReleaseClose()
+	r.Pair.B.ReleaseClose()
 	r.Pair.A.StallWrites(false)
 	r.Pair.B.StallWrites(false)
 	r.Pair.A.StallReads(false)
